@@ -34,6 +34,8 @@ def compare(vec: Dict[str, Any], obs: Dict[str, Any]) -> Outcome:
                               and vec["schema"]["joint"] != "no")
                 if joint_lazy:
                     oc.known = ["PolarsLazyJointUniqueNotImplemented"]
+                elif tag == "kind" and "DropEvalsMultiIndexLabels" in (vec.get("devs") or []) and k == vec.get("asis"):
+                    oc.known = ["DropEvalsMultiIndexLabels"]
                 else:
                     oc.mismatches.append("%s %s (%s): an internal exception escaped validate: %s %s"
                                          % (vec["backend"], vec["mode"], "lazy" if tag == "lazy_kind" or vec["mode"] == "drop" else "eager",
